@@ -207,11 +207,12 @@ impl IppValue {
             }
             IppValue::Array(ref list) => {
                 for (i, item) in list.iter().enumerate() {
-                    buffer.put(item.to_bytes());
-                    if i < list.len() - 1 {
-                        buffer.put_u8(self.to_tag());
+                    if i > 0 {
+                        // additional value: its own tag and an empty name
+                        buffer.put_u8(item.to_tag());
                         buffer.put_u16(0);
                     }
+                    buffer.put(item.to_bytes());
                 }
             }
             IppValue::Collection(ref list) => {
